@@ -287,7 +287,14 @@ impl<'a> Gen<'a> {
                 8 => Act::Clone { src: Src::G(self.glob()), dst: Dst::Slot(Own::Me, false, self.tslot()) },
                 9 => Act::Upgrade { src: WLoc::Of(Own::Me, self.rng.idx(NW) as u8), dst: Dst::Discard },
                 10 => Act::MarkAlive { src: Src::MeT(self.tslot()) },
-                11 => Act::Clean { c: self.rng.idx(NC) as u8 },
+                11 => {
+                    if self.rng.chance(1, 2) {
+                        Act::Clean { c: self.rng.idx(NC) as u8 }
+                    } else {
+                        // registering on a live object's cleaner from inside a finalizer
+                        Act::Register { own: if self.rng.chance(1, 2) { Own::G(self.glob()) } else { Own::R(self.reg()) }, action: Box::new(ActionSpec { cap: None, wcap: None, script: vec![] }), dst: self.rng.idx(NC) as u8 }
+                    }
+                }
                 12 => Act::Drop { dst: Dst::R(self.reg()) },
                 _ => Act::Query,
             }
